@@ -131,6 +131,33 @@ def run(ctx):
                 ctx.violation(f"frame:loop-constraint-raises:{type(e).__name__}", f"a loop constraint on a {h}x{w} frame raised {e!r}", {"frame": [h, w]})
             ctx.count("c14.loop_constraint_frames")
             ctx.case(["loop-constraints", h, w], nontrivial=True)
+    # frames come and go: an object created where a dead frame lived (same id()) is a different frame - whatever was remembered
+    # about the dead one (inferred graph, neighbour tables) must not be served for it
+    rng = ctx.rng
+    s3 = cspuz.Solver()
+    for k in range(120 if not thorough else 2000):
+        h, w = rng.randint(0, 4), rng.randint(0, 4)
+        fr = BoolGridFrame(s3, h, w)
+        try:
+            graph._from_grid_frame(fr)
+            fr.cell_neighbors(0, 0) if h and w else None
+            list(fr)
+        except Exception as e:
+            ctx.violation(f"frame:accessor-raises:{type(e).__name__}", f"accessor on a valid {h}x{w} frame raised {e!r}", {"frame": [h, w]})
+        fid = id(fr)
+        del fr
+        h2, w2 = rng.randint(0, 4), rng.randint(0, 4)
+        fr2 = BoolGridFrame(s3, h2, w2)
+        if id(fr2) == fid:
+            ctx.count("c14.frame_created_at_the_id_of_a_dead_frame")
+        try:
+            graph._from_grid_frame(fr2)  # judged by M-FRAME against the lattice of fr2
+            fr2.vertex_neighbors(0, 0)
+            fr2.all_edges()
+        except Exception as e:
+            ctx.violation(f"frame:accessor-raises:{type(e).__name__}", f"accessor on a valid {h2}x{w2} frame raised {e!r}", {"frame": [h2, w2]})
+        ctx.case(["id-reuse", h, w, h2, w2, k], nontrivial=True)
+        del fr2
     from .c13 import realistic_stage
 
     realistic_stage(ctx, thorough)
